@@ -1,5 +1,6 @@
 import Dashu.Driver.Loop
 import Dashu.Model.Int.Div
+import Dashu.Model.Int.NumModular
 /-
   Driver of group `div` (C02): runs the mirrored division model; beside every result it evaluates
   the specification (`Nat` `/ %`, `Int.tdiv/tmod`, `Int.ediv/emod` — Lean core) and appends
@@ -36,7 +37,60 @@ def uu (W : Nat) (p : TRepr × TRepr) : String := uStr W p.1 ++ " " ++ uStr W p.
 def ss (W : Nat) (p : SRepr × SRepr) : String := sStr W p.1 ++ " " ++ sStr W p.2
 def su (W : Nat) (p : SRepr × TRepr) : String := sStr W p.1 ++ " " ++ uStr W p.2
 
+def ckMod : Nat := 2 ^ 61 - 1
+def ck (h q r : Nat) : Nat := ((h * 31 + q) % ckMod * 31 + r) % ckMod
+
+def qr (p : Nat × Nat) : String := natToHex p.1 ++ " " ++ natToHex p.2
+
+/-- direct ops on the mirror of num-modular's dividers (word size given per case) -/
+def nmDispatch (op : String) (args : List String) : Option String :=
+  match op, args with
+  | "nm.inv1", [w, d] => do
+    let w ← parseDecNat w; let d ← parseNat d
+    pure (chk ("ok " ++ natToHex (NumModular.invertWord w d)) ("ok " ++ natToHex ((2 ^ (2 * w) - 1) / d - 2 ^ w)))
+  | "nm.inv2", [w, d] => do
+    let w ← parseDecNat w; let d ← parseNat d
+    pure (chk ("ok " ++ natToHex (NumModular.invertDoubleWord w d)) ("ok " ++ natToHex ((2 ^ (3 * w) - 1) / d - 2 ^ w)))
+  | "nm.div1by1", [w, d, a] => do
+    let _ ← parseDecNat w; let d ← parseNat d; let a ← parseNat a
+    pure (chk ("ok " ++ qr (div1by1 d a)) ("ok " ++ qr (a / d, a % d)))
+  | "nm.div2by2", [w, d, a] => do
+    let _ ← parseDecNat w; let d ← parseNat d; let a ← parseNat a
+    pure (chk ("ok " ++ qr (div2by2 d a)) ("ok " ++ qr (a / d, a % d)))
+  | "nm.div2by1", [w, d, a] => do
+    let w ← parseDecNat w; let d ← parseNat d; let a ← parseNat a
+    pure (chk ("ok " ++ qr (NumModular.div2by1 w d (NumModular.invertWord w d) a)) ("ok " ++ qr (a / d, a % d)))
+  | "nm.div3by2", [w, d, alo, ahi] => do
+    let w ← parseDecNat w; let d ← parseNat d; let alo ← parseNat alo; let ahi ← parseNat ahi
+    let a := alo + 2 ^ w * ahi
+    pure (chk ("ok " ++ qr (NumModular.div3by2 w d (NumModular.invertDoubleWord w d) alo ahi))
+      ("ok " ++ qr (a / d, a % d)))
+  | "nm.div4by2", [w, d, alo, ahi] => do
+    let w ← parseDecNat w; let d ← parseNat d; let alo ← parseNat alo; let ahi ← parseNat ahi
+    let a := alo + 2 ^ (2 * w) * ahi
+    pure (chk ("ok " ++ qr (NumModular.div4by2 w d (NumModular.invertDoubleWord w d) alo ahi))
+      ("ok " ++ qr (a / d, a % d)))
+  | "nm.sweep2by1", [_, d] => do
+    let d ← parseNat d
+    let m := NumModular.invertWord 8 d
+    let hm := (List.range (d * 256)).foldl (fun h a => let p := NumModular.div2by1 8 d m a; ck h p.1 p.2) 0
+    let hs := (List.range (d * 256)).foldl (fun h a => ck h (a / d) (a % d)) 0
+    pure (chk ("ok " ++ natToHex hm) ("ok " ++ natToHex hs))
+  | "nm.sweepinv2", [_, lo, cnt] => do
+    let lo ← parseNat lo; let cnt ← parseNat cnt
+    let hm := (List.range cnt).foldl (fun h i => ck h (NumModular.invertDoubleWord 8 (lo + i)) 0) 0
+    let hs := (List.range cnt).foldl (fun h i => ck h ((2 ^ 24 - 1) / (lo + i) - 256) 0) 0
+    pure (chk ("ok " ++ natToHex hm) ("ok " ++ natToHex hs))
+  | "nm.sweep3by2", [_, d, ahi] => do
+    let d ← parseNat d; let ahi ← parseNat ahi
+    let m := NumModular.invertDoubleWord 8 d
+    let hm := (List.range 256).foldl (fun h alo => let p := NumModular.div3by2 8 d m alo ahi; ck h p.1 p.2) 0
+    let hs := (List.range 256).foldl (fun h alo => let a := alo + 256 * ahi; ck h (a / d) (a % d)) 0
+    pure (chk ("ok " ++ natToHex hm) ("ok " ++ natToHex hs))
+  | _, _ => none
+
 def dispatch : Dispatch := fun W op args =>
+  if op.startsWith "nm." then nmDispatch op args else
   match op, args with
   -- ------------------------------------------------------------------ UBig
   | "u.div", [a, b] => do
